@@ -481,9 +481,13 @@ class Interp:
             if case.guard is not None:
                 # `case P if g`: the guard is evaluated only where the pattern matched (patterns supported here bind no names)
                 sub = cx.fork(c)
+                sub.exits = []
+                k0 = len(sub.pcl)
                 gv = self.truth(self.eval(case.guard, sub, ev), sub) if not sub.dead else False
-                if len(sub.pcl) != len(cx.pcl) + (0 if concrete_bool(c) is True else 1) and not sub.dead:
-                    raise PyvcUnsupported('a match guard with side conditions')
+                for e in sub.exits:          # an exception raised by the guard leaves the match statement on that path
+                    cx.exits.append(e)
+                # conjuncts added while evaluating the guard only narrow alternatives (e.g. an optional value taken as not None)
+                gv = And_(gv, *sub.pcl[k0:]) if not sub.dead else False
                 c = And_(c, gv)
             self.branch(c, cx, ev, lambda c2, e2: self.exec_block(case.body, c2, e2),
                         lambda c2, e2: go(cases[1:], c2, e2))
